@@ -362,7 +362,11 @@ func buildPlugin(ver string, c *cloud, regions []string, preferred string) (kmsP
 	for _, r := range regions {
 		arn[r] = arnOf(r)
 	}
-	return pv2.NewBuilder(crypto, arn).WithPreferredRegion(preferred).WithAWSConfig(awsv2.Config{}).
+	base := awsv2.Config{}
+	if ver == "v2cfg" {
+		base.Region = regions[len(regions)-1] // a base configuration that already names a region (AWS_REGION / profile)
+	}
+	return pv2.NewBuilder(crypto, arn).WithPreferredRegion(preferred).WithAWSConfig(base).
 		WithKMSFactory(func(cfg awsv2.Config, _ ...func(*kmsv2.Options)) pv2.AWSClient { return fakeV2{c, cfg.Region} }).Build()
 }
 
@@ -397,7 +401,7 @@ func awsSpace(r *Report, prop string, maxN int) {
 	for n := 1; n <= maxN; n++ {
 		regions := c17Regions[:n]
 		for _, preferred := range regions {
-			for _, pair := range [][2]string{{"v1", "v1"}, {"v2", "v2"}, {"v1", "v2"}, {"v2", "v1"}, {"v1pub", "v1dep"}} {
+			for _, pair := range [][2]string{{"v1", "v1"}, {"v2", "v2"}, {"v1", "v2"}, {"v2", "v1"}, {"v1pub", "v1dep"}, {"v2cfg", "v2cfg"}} {
 				c := newCloud()
 				curCloud = c
 				wrapper, err := buildPlugin(pair[0], c, regions, preferred)
